@@ -251,6 +251,55 @@ Proof.
   destruct (mtodo t); [|discriminate]. destruct (mpc_ t); try discriminate. split; reflexivity.
 Qed.
 
+(* From the invariants at the end of a complete run to the schedule-free characterisation. *)
+Lemma items_from_hist (c : cfg) (s : mst) :
+  (forall k, fst (krun (hist s)) k = mm s k) -> snd (krun (hist s)) = gitems s ->
+  Permutation (emitted s) (gitems s) ->
+  Permutation (hist s) (flat_map regs_of (mthrs s)) ->
+  NoDup (map cd (mthrs s)) -> map orig (mthrs s) = c -> mfinished s = true ->
+  (forall cn p q, In (cn, p, q) (emitted s) <->
+     exists k reqs resps, In (cn, true, reqs) c /\ In (cn, false, resps) c
+                          /\ nth_error reqs k = Some p /\ nth_error resps k = Some q)
+  /\ (forall cn id d p, mm s (cn, id) = Some (d, p) <->
+        exists l, In (cn, d, l) c /\ 0 < id /\ nth_error l (id - 1) = Some p
+                  /\ forall l' q, In (cn, negb d, l') c -> nth_error l' (id - 1) <> Some q)
+  /\ Permutation (emitted s) (gitems s).
+Proof.
+  intros Hm Hg He Hh Hd Ho Hfin.
+  assert (Huniq : uniq (hist s)).
+  { unfold uniq. apply (Permutation_NoDup (l := map kd (flat_map regs_of (mthrs s)))).
+    - apply Permutation_map. apply Permutation_sym. exact Hh.
+    - apply regs_all_nodup. exact Hd. }
+  pose proof (krun_inv (hist s) Huniq) as [I1 I2]. rewrite Hg in I2.
+  assert (I1' : forall k d p, mm s k = Some (d, p) <-> In (k, d, p) (hist s) /\ (forall q, ~ In (k, negb d, q) (hist s)))
+    by (intros k d p; rewrite <- Hm; apply I1).
+  (* membership in hist in terms of the configuration *)
+  assert (Hmem : forall cn id d p, In ((cn, id), d, p) (hist s) <->
+            exists l, In (cn, d, l) c /\ 0 < id /\ nth_error l (id - 1) = Some p).
+  { intros cn id d p. split.
+    - intros Hin. apply (Permutation_in _ Hh) in Hin. apply in_flat_map in Hin as [t [Ht' Hin]].
+      apply regs_in in Hin as [-> [-> [Hlt Hn]]]. exists (mdone t). repeat split; try assumption.
+      rewrite <- Ho. apply in_map_iff. exists t. split; [|exact Ht'].
+      unfold orig. destruct (finished_threads s t Hfin Ht') as [-> _]. rewrite app_nil_r. reflexivity.
+    - intros [l [Hin [Hlt Hn]]]. rewrite <- Ho in Hin. apply in_map_iff in Hin as [t [Horig Ht']].
+      unfold orig in Horig. destruct (finished_threads s t Hfin Ht') as [Htodo _]. rewrite Htodo, app_nil_r in Horig.
+      injection Horig as <- <- <-. apply (Permutation_in _ (Permutation_sym Hh)). apply in_flat_map. exists t. split; [exact Ht'|].
+      apply regs_in. repeat split; assumption. }
+  split; [|split; [|exact He]].
+  - intros cn p q. split.
+    + intros Hin. apply (Permutation_in _ He) in Hin. apply I2 in Hin as [id [H1 H2]].
+      apply Hmem in H1 as [reqs [Hr [Hlt Hn1]]]. apply Hmem in H2 as [resps [Hs [_ Hn2]]].
+      exists (id - 1), reqs, resps. repeat split; assumption.
+    + intros [k [reqs [resps [Hr [Hs [Hn1 Hn2]]]]]]. apply (Permutation_in _ (Permutation_sym He)). apply I2.
+      exists (S k). split; apply Hmem; [exists reqs | exists resps]; (repeat split; [assumption | lia |]);
+        replace (S k - 1) with k by lia; assumption.
+  - intros cn id d p. rewrite I1'. split.
+    + intros [Hin Hno]. apply Hmem in Hin as [l [Hl [Hlt Hn]]]. exists l. repeat split; try assumption.
+      intros l' q Hl' Hq. apply (Hno q). apply Hmem. exists l'. repeat split; assumption.
+    + intros [l [Hl [Hlt [Hn Hno]]]]. split; [apply Hmem; exists l; repeat split; assumption|].
+      intros q Hq. apply Hmem in Hq as [l' [Hl' [_ Hq]]]. exact (Hno l' q Hl' Hq).
+Qed.
+
 (* Every complete run, under every interleaving of the threads' atoms: the emitted items are
    exactly the pairs (k-th request, k-th response) of each connection, each emitted once; the
    matcher holds exactly the unanswered halves.  The right-hand sides do not mention the
@@ -272,36 +321,9 @@ Proof.
   assert (Hpend : flat_map pendi (mthrs s) = []).
   { apply flat_map_nil. intros t Hin. destruct (finished_threads s t Hfin Hin) as [_ Hpc]. unfold pendi. rewrite Hpc. reflexivity. }
   rewrite Hpend, app_nil_r in He.
-  assert (Huniq : uniq (hist s)).
-  { unfold uniq. apply (Permutation_NoDup (l := map kd (flat_map regs_of (mthrs s)))).
-    - apply Permutation_map. apply Permutation_sym. exact Hh.
-    - apply regs_all_nodup. exact Hd. }
-  pose proof (krun_inv (hist s) Huniq) as [I1 I2]. rewrite <- Hk in I1, I2. cbn [fst snd] in I1, I2.
-  (* membership in hist in terms of the configuration *)
-  assert (Hmem : forall cn id d p, In ((cn, id), d, p) (hist s) <->
-            exists l, In (cn, d, l) c /\ 0 < id /\ nth_error l (id - 1) = Some p).
-  { intros cn id d p. split.
-    - intros Hin. apply (Permutation_in _ Hh) in Hin. apply in_flat_map in Hin as [t [Ht' Hin]].
-      apply regs_in in Hin as [-> [-> [Hlt Hn]]]. exists (mdone t). repeat split; try assumption.
-      rewrite <- Ho. apply in_map_iff. exists t. split; [|exact Ht'].
-      unfold orig. destruct (finished_threads s t Hfin Ht') as [-> _]. rewrite app_nil_r. reflexivity.
-    - intros [l [Hin [Hlt Hn]]]. rewrite <- Ho in Hin. apply in_map_iff in Hin as [t [Horig Ht']].
-      unfold orig in Horig. destruct (finished_threads s t Hfin Ht') as [Htodo _]. rewrite Htodo, app_nil_r in Horig.
-      injection Horig as <- <- <-. apply (Permutation_in _ (Permutation_sym Hh)). apply in_flat_map. exists t. split; [exact Ht'|].
-      apply regs_in. repeat split; assumption. }
-  split; [|split; [|exact He]].
-  - intros cn p q. split.
-    + intros Hin. apply (Permutation_in _ He) in Hin. apply I2 in Hin as [id [H1 H2]].
-      apply Hmem in H1 as [reqs [Hr [Hlt Hn1]]]. apply Hmem in H2 as [resps [Hs [_ Hn2]]].
-      exists (id - 1), reqs, resps. repeat split; assumption.
-    + intros [k [reqs [resps [Hr [Hs [Hn1 Hn2]]]]]]. apply (Permutation_in _ (Permutation_sym He)). apply I2.
-      exists (S k). split; apply Hmem; [exists reqs | exists resps]; (repeat split; [assumption | lia |]);
-        replace (S k - 1) with k by lia; assumption.
-  - intros cn id d p. rewrite I1. split.
-    + intros [Hin Hno]. apply Hmem in Hin as [l [Hl [Hlt Hn]]]. exists l. repeat split; try assumption.
-      intros l' q Hl' Hq. apply (Hno q). apply Hmem. exists l'. repeat split; assumption.
-    + intros [l [Hl [Hlt [Hn Hno]]]]. split; [apply Hmem; exists l; repeat split; assumption|].
-      intros q Hq. apply Hmem in Hq as [l' [Hl' [_ Hq]]]. exact (Hno l' q Hl' Hq).
+  apply items_from_hist; try assumption.
+  - intros k. rewrite <- Hk. reflexivity.
+  - rewrite <- Hk. reflexivity.
 Qed.
 
 (* schedule independence: any two complete runs give the same items (as a multiset when
